@@ -121,7 +121,23 @@ class C06(core.Prop):
                 'output_fields': rng.choice([None, None, [], [fr['cols'][0]['name']]]),
                 'index': rng.random() < 0.3, 'in_place': rng.random() < 0.2, 'boolean_ints': rng.random() < 0.2}
         return {'frame': fr, 'constraints': cons, 'eps': [e.numerator, e.denominator],
-                'opts': opts, 'out': rng.choice([None, None, 'csv', 'parquet']), 'stale': rng.random() < 0.5}
+                'opts': opts, 'out': rng.choice([None, None, 'csv', 'parquet']), 'stale': rng.random() < 0.5,
+                'index_kind': rng.choice(['default', 'default', 'permuted', 'labels', 'offset'])}
+
+    def _indexed(self, df, case):
+        """the frame as a caller may hold it: after a sort (permuted integer index), with row labels, after a filter"""
+        kind = case.get('index_kind', 'default')
+        n = len(df)
+        if kind == 'permuted' and n:
+            import random
+            idx = list(range(n))
+            random.Random(n * 7 + 1).shuffle(idx)
+            df.index = idx
+        elif kind == 'labels' and n:
+            df.index = ['r%d' % (n - i) for i in range(n)]
+        elif kind == 'offset' and n:
+            df.index = [10 + 3 * i for i in range(n)]
+        return df
 
     # --- correspondence: one cx.detect op per column ------------------
     def _rex(self, case):
@@ -217,7 +233,7 @@ class C06(core.Prop):
         o = case['opts']
         d = tempfile.mkdtemp(prefix='c06_')
         try:
-            df = cx.to_df(case['frame'])
+            df = self._indexed(cx.to_df(case['frame']), case)
             orig = df.copy(deep=True)
             outpath = None
             if case['out']:
@@ -227,7 +243,7 @@ class C06(core.Prop):
                         f.write('stale,content\n1,2\n')
             try:
                 with quiet(), contextlib.redirect_stdout(io.StringIO()):
-                    ver = verify_df(cx.to_df(case['frame']), cons, epsilon=epsf, repair=False)
+                    ver = verify_df(self._indexed(cx.to_df(case['frame']), case), cons, epsilon=epsf, repair=False)
                     v = detect_df(df, cons, epsilon=epsf, repair=False, outpath=outpath,
                                   per_constraint=o['per_constraint'], write_all=o['write_all'],
                                   output_fields=o['output_fields'], index=o['index'], in_place=o['in_place'],
@@ -308,16 +324,34 @@ class C06(core.Prop):
                      % (dd.n_passing_records, dd.n_failing_records, n, nfail))
             # the requested run: rows returned = failing records unless write_all
             det1 = v.detected()
+            want_nf_rows = got_nf if o['write_all'] else [x for x in got_nf if x > 0]
+            first = case['frame']['cols'][0]
+            want_first = [str(c) for c, x in zip(self._indexed(cx.to_df(case['frame']), case)[first['name']], got_nf)
+                          if o['write_all'] or x > 0]
+
+            def which_rows(frame, where):
+                """the rows written are the failing records themselves (all records with write_all), in order"""
+                if 'n_failures' in frame.columns and [int(x) for x in frame['n_failures']] != want_nf_rows:
+                    fail('output-rows', '%s: n_failures of the rows written %r, of the failing records %r'
+                         % (where, [int(x) for x in frame['n_failures']][:10], want_nf_rows[:10]), 'output-rows:wrong-records:' + where)
+                elif first['name'] in frame.columns and where == 'returned' and [str(c) for c in frame[first['name']]] != want_first:
+                    fail('output-rows', '%s: column %r of the rows written %r, of the failing records %r'
+                         % (where, first['name'], [str(c) for c in frame[first['name']]][:6], want_first[:6]),
+                         'output-rows:wrong-records:' + where)
             if det1 is not None:
                 want_rows = n if o['write_all'] else v.detection.n_failing_records
                 if len(det1) != want_rows:
                     fail('output-rows', 'returned %d rows, expected %d' % (len(det1), want_rows))
+                else:
+                    which_rows(det1, 'returned')
             if outpath and os.path.exists(outpath):
                 try:
                     fdf = pd.read_parquet(outpath) if case['out'] == 'parquet' else pd.read_csv(outpath)
                     want_rows = n if o['write_all'] else v.detection.n_failing_records
                     if len(fdf) != want_rows:
                         fail('output-rows', 'file holds %d rows, expected %d' % (len(fdf), want_rows), 'output-rows:file')
+                    else:
+                        which_rows(fdf, 'file')
                 except Exception as e:
                     fail('outfile-unreadable', repr(e)[:200], 'outfile-unreadable:' + type(e).__name__)
         finally:
